@@ -570,13 +570,13 @@ func AmountSplit(amount uint64) []uint64 {
 }
 
 func CheckDuplicateProofs(proofs Proofs) bool {
-	proofsMap := make(map[Proof]bool)
+	secrets := make(map[string]bool)
 
 	for _, proof := range proofs {
-		if proofsMap[proof] {
+		if secrets[proof.Secret] {
 			return true
 		} else {
-			proofsMap[proof] = true
+			secrets[proof.Secret] = true
 		}
 	}
 
@@ -584,13 +584,13 @@ func CheckDuplicateProofs(proofs Proofs) bool {
 }
 
 func CheckDuplicateBlindedMessages(bms BlindedMessages) bool {
-	bmMap := make(map[BlindedMessage]bool)
+	B_s := make(map[string]bool)
 
 	for _, bm := range bms {
-		if bmMap[bm] {
+		if B_s[bm.B_] {
 			return true
 		} else {
-			bmMap[bm] = true
+			B_s[bm.B_] = true
 		}
 	}
 
